@@ -44,6 +44,37 @@ def sh(cmd, cwd=None, env=None, timeout=None, check=True, input=None):
     return p
 
 
+def run_restartable(cmd_prefix, cases, work, tag, timeout=3600):
+    """Run a `vh` batch command (runBatch in the harness): `cmd_prefix -in <cases> -out <file>`.
+    The harness exits with status 3 right after reporting a case that hangs inside the real code; the
+    command is then restarted on the cases that have not been reported. Returns the records in case order."""
+    byid = {}
+    todo = list(cases)
+    rounds = 0
+    t0 = time.time()
+    while todo:
+        rounds += 1
+        cpath, opath = work.path("%s.%d.cases.ndjson" % (tag, rounds)), work.path("%s.%d.out.ndjson" % (tag, rounds))
+        write_ndjson(cpath, todo)
+        if os.path.exists(opath):
+            os.remove(opath)
+        p = sh(cmd_prefix + ["-in", cpath, "-out", opath], timeout=max(60, timeout - (time.time() - t0)), check=False)
+        got = read_ndjson(opath) if os.path.exists(opath) else []
+        for r in got:
+            byid[r["id"]] = r
+        if p.returncode == 0:
+            break
+        if p.returncode != 3 or not got:
+            raise ToolError("harness failed (%d): %s\n%s" % (p.returncode, " ".join(cmd_prefix), p.stderr[-3000:]))
+        todo = [c for c in todo if c["id"] not in byid]
+        if rounds > 200:
+            raise ToolError("too many hangs in the real code (%d restarts)" % rounds)
+    missing = [c["id"] for c in cases if c["id"] not in byid]
+    if missing:
+        raise ToolError("harness did not report cases %s" % missing[:5])
+    return [byid[c["id"]] for c in cases]
+
+
 # ---------------------------------------------------------------------------
 # build
 
